@@ -710,28 +710,53 @@ Section Conc.
 
   (* ---------- traces of yield-point labels ---------- *)
 
-  (* A trace event = "a thread has ARRIVED at the code site labelled l" (that is what a yield hook
-     placed before the statement records).  A transition s -> s' emits the labels of the new
-     program points of the threads it moved (a rendezvous or a `go` moves two threads: two
-     arrivals, accepted in either order); unlabelled points emit nothing. *)
-  Variable leqb : L -> L -> bool.
+  (* A trace event = "a thread has ARRIVED at the code site labelled l": that is what a yield hook
+     placed before the statement records.  The hook of thread t runs some time after t's previous
+     statement took effect and before t's next statement does, so in a free-running program the
+     recorded order of arrivals may lag behind the order of the steps.  Accordingly:
+       - a transition s -> s' of the model leaves, for every thread it moved (a rendezvous or a
+         `go` moves two), a PENDING arrival at the label of the new program point (none if that
+         point is unlabelled);
+       - a trace event l consumes a pending arrival at l of some thread;
+       - a thread with a pending arrival cannot move;
+       - the arrivals at the initial program points are optional (the recording may start later):
+         they are dropped when the thread moves on.
+     Under a serialising scheduler (one goroutine released at a time) this degenerates to "the
+     labels are emitted in step order".
+     Implementation: a configuration is a state with one extra variable per thread
+     (0 = nothing pending, S (2 * id + opt) = arrival at label id pending) so that the kernel's
+     state sets can be reused; [step] never looks at these extra variables. *)
+  Variable lid : L -> nat.
 
-  Definition emitted (sy : sys) (s s' : state) : list L :=
-    flat_map (fun t => if Nat.eqb (pc_of s t) (pc_of s' t) then []
-                       else match label_at sy s' t with Some l => [l] | None => [] end) (tids sy).
+  Definition pbase (sy : sys) : nat := length (vars (init sy)).
+  Definition pend_of (sy : sys) (c : state) (t : tid) : nat := var_of c (pbase sy + t).
+  Definition mandatory (p : nat) : bool := match p with 0 => false | S q => Nat.even q end.
+  Definition pend_code (l : L) (optional : bool) : nat := S (2 * lid l + (if optional then 1 else 0)).
+  Definition pend_matches (p : nat) (l : L) : bool :=
+    match p with 0 => false | S q => Nat.eqb (Nat.div2 q) (lid l) end.
 
-  Fixpoint remove1 (l : L) (xs : list L) : option (list L) :=
-    match xs with
-    | [] => None
-    | x :: t => if leqb l x then Some t
-                else match remove1 l t with Some t' => Some (x :: t') | None => None end
-    end.
+  Definition init_config (sy : sys) : state :=
+    let s := init sy in
+    mkState (pcs s) (closed s)
+            (vars s ++ map (fun t => match label_at sy s t with
+                                     | Some l => pend_code l true
+                                     | None => 0
+                                     end) (tids sy))
+            (panic s).
 
-  (* configurations: (state, arrivals already produced by the last transition but not yet seen in
-     the trace) *)
-  Definition config := (state * list L)%type.
+  Definition moved (sy : sys) (c c' : state) : list tid :=
+    filter (fun t => negb (Nat.eqb (pc_of c t) (pc_of c' t))) (tids sy).
 
-  (* silent closure: transitions that emit nothing, from configurations without pending arrivals *)
+  (* model transitions on configurations *)
+  Definition tau_succs (sy : sys) (c : state) : list state :=
+    flat_map (fun c' =>
+      let ms := moved sy c c' in
+      if existsb (fun t => mandatory (pend_of sy c t)) ms then []
+      else [fold_left (fun c'' t =>
+              set_var c'' (pbase sy + t)
+                      (match label_at sy c' t with Some l => pend_code l false | None => 0 end))
+              ms c']) (succs sy c).
+
   Fixpoint tau_close (sy : sys) (fuel : nat) (frontier : list state) (seen : sset) (acc : list state)
     : list state :=
     match frontier with
@@ -740,52 +765,36 @@ Section Conc.
         match fuel with
         | 0 => acc
         | S f =>
-            let ns := fold_left (fun a s =>
-                        fold_left (fun a' s' =>
-                          match emitted sy s s' with
-                          | [] => visit a' s'
-                          | _ => a'
-                          end) (succs sy s) a) frontier ([], seen) in
+            let ns := fold_left (fun a c => fold_left visit (tau_succs sy c) a) frontier ([], seen) in
             tau_close sy f (fst ns) (snd ns) (fst ns ++ acc)
         end
     end.
 
-  Definition closure (sy : sys) (fuel : nat) (ss : list state) : list state :=
-    let seen := of_list ss in tau_close sy fuel ss seen ss.
+  Definition dedup_states (l : list state) : list state * sset := fold_left visit l ([], sempty).
 
-  (* consume label l: from the quiet configurations take one emitting transition; from the
-     configurations with pending arrivals take l out of them *)
-  Definition feed (sy : sys) (fuel : nat) (quiet : list state) (pend : list config) (l : L)
-    : list state * list config :=
-    let from_quiet :=
-      flat_map (fun s =>
-        flat_map (fun s' =>
-          match remove1 l (emitted sy s s') with
-          | Some rest => [(s', rest)]
-          | None => []
-          end) (succs sy s)) quiet in
-    let from_pend :=
-      flat_map (fun c => match remove1 l (snd c) with Some rest => [(fst c, rest)] | None => [] end) pend in
-    let all := from_quiet ++ from_pend in
-    let q := map fst (filter (fun c => match snd c with [] => true | _ => false end) all) in
-    let p := filter (fun c => match snd c with [] => false | _ => true end) all in
-    (closure sy fuel (fst (fold_left visit q ([], sempty))), p).
+  Definition closure (sy : sys) (fuel : nat) (cs : list state) : list state :=
+    let d := dedup_states cs in tau_close sy fuel (fst d) (snd d) (fst d).
 
-  Fixpoint feed_all (sy : sys) (fuel : nat) (quiet : list state) (pend : list config) (tr : list L)
-    : bool :=
+  Definition consume (sy : sys) (cs : list state) (l : L) : list state :=
+    flat_map (fun c =>
+      flat_map (fun t => if pend_matches (pend_of sy c t) l then [set_var c (pbase sy + t) 0] else [])
+               (tids sy)) cs.
+
+  Fixpoint feed_all (sy : sys) (fuel : nat) (cs : list state) (tr : list L) : bool :=
     match tr with
-    | [] => match quiet, pend with [], [] => false | _, _ => true end
+    | [] => match cs with [] => false | _ => true end
     | l :: r =>
-        let qp := feed sy fuel quiet pend l in
-        match fst qp, snd qp with
-        | [], [] => false
-        | _, _ => feed_all sy fuel (fst qp) (snd qp) r
+        match consume sy (closure sy fuel cs) l with
+        | [] => false
+        | cs' => feed_all sy fuel cs' r
         end
     end.
 
-  (* is the label sequence a possible trace (prefix of a run) of the system? *)
+  (* is the label sequence a possible record (prefix) of a run of the system? *)
   Definition accepts_trace (sy : sys) (fuel : nat) (tr : list L) : bool :=
-    feed_all sy fuel (closure sy fuel [init sy]) [] tr.
+    feed_all sy fuel [init_config sy] tr.
+
+  Definition leqb (a b : L) : bool := Nat.eqb (lid a) (lid b).
 
   (* per-thread projection: is the label sequence a path of one thread's control-flow graph
      (ignoring synchronisation)?  Sound for unserialised logs of a single goroutine. *)
@@ -849,4 +858,5 @@ Arguments reach {L}. Arguments edges {L}. Arguments check_closed {L}.
 Arguments moves {L}. Arguments races {L}. Arguments no_plain {L}.
 Arguments terminal {L}. Arguments can_move {L}. Arguments find_path {L}.
 Arguments accepts_trace {L}. Arguments cfg_accepts {L}. Arguments can_reach {L}.
-Arguments fetch {L}. Arguments succs_m {L}. Arguments emitted {L}.
+Arguments fetch {L}. Arguments succs_m {L}. Arguments init_config {L}. Arguments tau_succs {L}.
+Arguments closure {L}. Arguments consume {L}.
